@@ -45,21 +45,40 @@ Encs == {"EVRLE", "IVRLE"}
 
 (* [ds, first = [tag, vr, len], enc, stray = an item delimiter precedes the data set] *)
 PrimCases ==
-  {[ds |-> <<P(f.tag, v, l, 6)>> \o Rest, first |-> [tag |-> f.tag, vr |-> v, len |-> l], enc |-> e, stray |-> s] :
+  {[ds |-> <<P(f.tag, v, l, 6)>> \o Rest, first |-> [tag |-> f.tag, vr |-> v, len |-> l], enc |-> e, stray |-> s, fam |-> "first"] :
      f \in Firsts, v \in UNION {g.vrs : g \in Firsts}, l \in UNION {g.lens : g \in Firsts}, e \in Encs, s \in {FALSE}}
 RealPrimCases == {c \in PrimCases : \E f \in Firsts : f.tag = c.first.tag /\ c.first.vr \in f.vrs /\ c.first.len \in f.lens
                                                     /\ (c.first.vr \in ShortVR => c.first.len < 65536)}
 SeqCases ==
   {[ds |-> <<S(<<8, 4416>>, lm, <<I(lm, <<P(<<8, 24>>, "UI", 4, 5)>>)>>)>> \o Rest,
-    first |-> [tag |-> <<8, 4416>>, vr |-> "SQ", len |-> IF lm = "U" THEN UNDEF ELSE 20], enc |-> e, stray |-> s] :
+    first |-> [tag |-> <<8, 4416>>, vr |-> "SQ", len |-> IF lm = "U" THEN UNDEF ELSE 20], enc |-> e, stray |-> s, fam |-> "first"] :
      lm \in {"U", "E"}, e \in Encs, s \in {FALSE, TRUE}}
 PixCases ==
   {[ds |-> <<X(<<F(0, 0), F(4, 1)>>), P(<<65532, 65532>>, "OB", 2, 3)>>,
-    first |-> [tag |-> PixelTag, vr |-> "OB", len |-> UNDEF], enc |-> e, stray |-> FALSE] : e \in Encs}
+    first |-> [tag |-> PixelTag, vr |-> "OB", len |-> UNDEF], enc |-> e, stray |-> FALSE, fam |-> "first"] : e \in Encs}
 StrayCases ==
   {[c EXCEPT !.stray = TRUE] : c \in {d \in RealPrimCases : d.first.len \in {2, 4}}}
 
-AllCases == RealPrimCases \cup SeqCases \cup PixCases \cup StrayCases
+(* After an unambiguous first element the lock must hold: later elements, at the root and  *)
+(* inside an item, whose length fields spell VR codes -- incompatible with their own       *)
+(* dictionary entry, and compatible with it (a second probe would take them for explicit)  *)
+Rest2 == <<P(<<114, 102>>, "LO", LenOf("DS"), 1),
+           P(<<114, 104>>, "LT", LenOf("LT"), 2),
+           S(<<114, 128>>, "U", <<I("U", <<P(<<114, 110>>, "ST", LenOf("ST"), 3)>>),
+                                  I("E", <<P(<<114, 112>>, "UT", LenOf("LO"), 4)>>)>>),
+           P(<<114, 131>>, "UV", 8, 5)>>
+LaterFirsts == { [tag |-> <<16, 16>>, vr |-> "PN", len |-> LenOf("LO")],     \* spells an incompatible VR
+                 [tag |-> <<16, 16>>, vr |-> "PN", len |-> 4],
+                 [tag |-> <<40, 16>>, vr |-> "US", len |-> LenOf("DA")],
+                 [tag |-> <<114, 109>>, vr |-> "UN", len |-> LenOf("DA")],
+                 [tag |-> <<9, 4097>>, vr |-> "LO", len |-> 4],              \* no dictionary entry
+                 [tag |-> <<8, 0>>, vr |-> "UL", len |-> 4] }
+LaterCases == {[ds |-> <<P(f.tag, f.vr, f.len, 6)>> \o Rest2, first |-> f, enc |-> e, stray |-> s, fam |-> "later"] :
+                 f \in LaterFirsts, e \in Encs, s \in {FALSE}}
+                \cup {[ds |-> <<P(<<16, 16>>, "PN", LenOf("LO"), 6)>> \o Rest2,
+                       first |-> [tag |-> <<16, 16>>, vr |-> "PN", len |-> LenOf("LO")], enc |-> e, stray |-> TRUE, fam |-> "later"] : e \in Encs}
+
+AllCases == RealPrimCases \cup SeqCases \cup PixCases \cup StrayCases \cup LaterCases
 (* the explicit length of the first sequence in SeqCases is computed, not assumed *)
 FixFirst(c) == IF c.first.vr = "SQ" /\ c.first.len # UNDEF
                THEN [c EXCEPT !.first.len = ItemsSize(c.ds[1].items, c.enc, "exact")] ELSE c
